@@ -34,3 +34,18 @@ claimed["C11"] = (
  "Decides on every path that sumCopyItem meets copy's obligations (one clock, guarded write of the source side of Diff with NaN included, destination handle, Sync) and sumDiffItem/execute meet diff's verdict obligations, both taking the sum from sumWhisperFile(SrcBase, item, SrcPattern). Necessary structural conditions of C11.",
  "Not decided: that the stored series equals the sum (value clause). Known finding C08.R8 applies to sum-copy as well.",
  "DESIGN.md 5 (C11)")
+claimed["C07"] = (
+ "static must-pass-through on SSA, abstract evaluation of validators over class representatives, canonicalised failing-condition extraction, set agreement by enumeration",
+ "Decides on every path: all five entry points pass the validators with errors surfaced and share one ArchiveInfoList.validate; the xFilesFactor validators (library and flag) accept exactly {-0,0,(0,1),1}; each pairwise rule exists as a rejecting branch with exactly the stated relation (strict step, divisibility, strict retention, enough points, offset recurrence, non-empty, positive step/count), the pairwise ones guarded only by not-last; retention and end offsets are bounded in 64-bit arithmetic and the decoded archive count is bounded; library and CLI accept the same six methods. Necessary structural conditions of C07.",
+ "Not decided: equality of a reopened header with the created one (C14's codec symmetry covers the bytes), the retention-string grammar (C19).",
+ "DESIGN.md 5 (C07)")
+claimed["C02"] = (
+ "static guard-dominates for the non-empty contract and the xFilesFactor gate, set agreement by enumeration, derives-from per aggregation method",
+ "Decides on every path: aggregate is only reached with a slice proven non-empty; validator/aggregator/CLI agree on methods 1..6 (panic arm unreachable); the gate is a float32 comparison of len(known)/len(all) with XFilesFactor() whose failing edge skips the write; only stored slots are queued for the next level and propagateChain feeds levels in order; the aggregated set is the stale-filtered one; first/last/max/min/sum/average derive from the right elements with the right comparison direction and initial value. Necessary structural conditions of C02.",
+ "Not decided: the numeric value of each aggregate, the coarse-interval/fine-slot correspondence, 'left exactly as it was'.",
+ "DESIGN.md 5 (C02)")
+claimed["C03"] = (
+ "static dominance and callee identity (stable sort first), canonicalised failing conditions (range check), shape recognition of the suffix partition, derives-from for routing",
+ "Decides on every path: sort.Stable on the whole batch dominates every partition and write; a single update fails iff t <= now-maxRetention or now < t, before any write; extractPoints is a backward scan that on a stale point at i returns (points[i+1:], points[:i+1]) and otherwise (points, empty), testing time <= now-retention; archives are written with result #0 of the partition of the previous remainder with the loop index as id; findBestArchive gets the point's own time. Necessary structural conditions of C03.",
+ "Not decided: findBestArchive's choice arithmetic, last-wins inside alignPoints, behaviour for unsorted input inside archiveUpdateMany.",
+ "DESIGN.md 5 (C03)")
